@@ -185,6 +185,17 @@ def rIdListLoopB (cfg : RCfg) (st : RSt) : Int → TL → TL → TL
 
 def sumValueLens (ids : TL) : Int := ids.foldl (fun a e => a + (e.2.value.length : Int) + 1) 0
 
+/-- `if adjusted_offset < 0: tlist.insert_before(identifiers[0], self.nl())` -/
+def rIdListFirstBreak (cfg : RCfg) (st1 : RSt) (adjusted : Int) (tl1 ids' : TL) : Except PyErr TL :=
+  if adjusted < 0 then
+    match ids' with
+    | [] => .error .indexError
+    | (tg, _) :: _ =>
+      match tlIndex tl1 tg with
+      | some i => .ok (insertAt tl1 i (0, rNl cfg st1))
+      | none => .error .valueError
+  else .ok tl1
+
 /-- `_process_identifierlist` -/
 def rIdentifierList (cfg : RCfg) (rec : RRec) (anc : List Cls) (pre : Text) (st : RSt) (ks : List FNode) :
     Except PyErr (List FNode × RSt) :=
@@ -216,33 +227,31 @@ def rIdentifierList (cfg : RCfg) (rec : RRec) (anc : List Cls) (pre : Text) (st 
               | some v => if cfg.wrapAfter > 0 && endAt > cfg.wrapAfter - st.offset then -(v.length : Int) - 1 else 0
               | none => 0
             let st1 := { st with offset := st.offset + adjusted, indent := st.indent + 1 }
-            let tl2 : Except PyErr TL :=
-              if adjusted < 0 then
-                match ids' with
-                | [] => .error .indexError
-                | (tg, _) :: _ =>
-                  match tlIndex tl1 tg with
-                  | some i => .ok (insertAt tl1 i (0, rNl cfg st1))
-                  | none => .error .valueError
-              else .ok tl1
-            match tl2 with
+            match rIdListFirstBreak cfg st1 adjusted tl1 ids' with
             | .error e => .error e
             | .ok tl2 => rDefault cfg rec anc pre st true (untag (rIdListLoopB cfg st1 0 tl2 ids'))
 
 /-- text of a list of tagged children (`''.join(str(x) for x in …)`) -/
 def tlText (tl : TL) : Text := FNode.textL (untag tl)
 
+/-- `''.join(str(x) for x in cond or [])` -/
+def condText (cond : Option TL) : Text :=
+  match cond with
+  | some c => tlText c
+  | none => []
+
+/-- `token = value[0] if cond is None else cond[0]`, as the tag of that child -/
+def caseBreakTag (cond : Option TL) (value : TL) : Except PyErr Nat :=
+  match cond with
+  | none => (match value with | (t, _) :: _ => .ok t | [] => .error .indexError)
+  | some c => (match c with | (t, _) :: _ => .ok t | [] => .error .indexError)
+
 /-- the loop over the remaining cases in `_process_case` -/
 def rCaseLoop (cfg : RCfg) (st : RSt) : TL → List (Option TL × TL) → Except PyErr TL
   | tl, [] => .ok tl
   | tl, (cond, value) :: rest =>
-    let endPos := st.offset + 1 + ((match cond with | some c => tlText c | none => []).length : Int) + ((tlText value).length : Int)
-    if !cfg.compact && endPos > cfg.wrapAfter then
-      let tok : Except PyErr Nat :=
-        match cond with
-        | none => (match value with | (t, _) :: _ => .ok t | [] => .error .indexError)
-        | some c => (match c with | (t, _) :: _ => .ok t | [] => .error .indexError)
-      match tok with
+    if !cfg.compact && st.offset + 1 + ((condText cond).length : Int) + ((tlText value).length : Int) > cfg.wrapAfter then
+      match caseBreakTag cond value with
       | .error e => .error e
       | .ok t =>
         match tlIndex tl t with
